@@ -2,6 +2,8 @@
 stand-in for the bpf() system call that knows the length of every Python buffer
 whose address it is given (harness/sim_bpf.py); the sizes are compared with
 Sys/MapBuf.v and with what the kernel would access."""
+import struct
+
 from .common import Check, Err, clist, cz
 from . import sim_bpf
 
@@ -150,7 +152,20 @@ class C10(Check):
                         elif op == "hset" and case["hashvars"]:
                             tag = ("HashVarSet",)
                             i = idx % len(case["hashvars"])
-                            setattr(e, f"h{i}", 1.5 if case["hashvars"][i][0] == "x" else max(0, amount))
+                            f = case["hashvars"][i][0]
+                            # also values the variable's format cannot hold (negative into unsigned, too large): they may be
+                            # refused with struct.error, but never written through a buffer shorter than the map's value
+                            v = 1.5 if f == "x" else amount * (1 if idx % 3 else 1 << (8 * SZ[f] - 1))
+                            fits = f == "x" or (-(1 << 8 * SZ[f] - 1) <= v < (1 << 8 * SZ[f] - 1) if f.islower() else 0 <= v < (1 << 8 * SZ[f]))
+                            try:
+                                setattr(e, f"h{i}", v)
+                            except struct.error:
+                                if fits:
+                                    raise
+                                results.append((op, "ok"))      # refused: fine
+                                new = len(sim.calls) - n0
+                                tags += [tag] * new
+                                continue
                         elif op == "pread" and case["percpu"]:
                             tag = ("PerCpuRead", total, sim.ncpu)
                             e.pc.read()
